@@ -47,21 +47,23 @@ type TrackSpec struct {
 }
 
 type Result struct {
+	Unprobed []string          // tracked-field selectors without an access probe (diagnostics)
 	Files    map[string]string // original absolute path -> generated path
 	Stats    map[string]int
 	Warnings []string
 }
 
 type rw struct {
-	fset    *token.FileSet
-	info    *types.Info
-	n       int
-	usedVrt bool
-	usedUns bool
-	stats   map[string]int
-	track   *TrackSpec
-	file    string
-	errs    []string
+	fset     *token.FileSet
+	info     *types.Info
+	n        int
+	usedVrt  bool
+	usedUns  bool
+	stats    map[string]int
+	track    *TrackSpec
+	file     string
+	errs     []string
+	unprobed []string
 }
 
 func id(s string) *ast.Ident                           { return ast.NewIdent(s) }
@@ -407,6 +409,7 @@ func Package(dir, outDir string, opts Options) (*Result, error) {
 		}
 		if r.track != nil {
 			r.trackFile(f)
+			res.Unprobed = append(res.Unprobed, r.unprobed...)
 		}
 		for j, d := range f.Decls {
 			f.Decls[j] = r.rewrite(d).(ast.Decl)
